@@ -50,3 +50,25 @@ fn k4_initexpr_numeric_const_matches_upstream() {
     }
 }
 
+
+// K5 (thorough tier only): the initialiser instructions that carry a function / global index are written out as the binary format
+// prescribes (oracle written from the specification).  One harness per instruction kind: with a symbolic kind, or with two LEB128
+// immediates (array.new_fixed / _data / _elem), CBMC ran out of memory (46 GB); the write-out / read-back bodies through
+// wasmparser's reader (bodies::k5_initexpr_*_roundtrip*) did not finish either and are only used natively by the replay crate.
+// loops: one LEB128 of at most 5 bytes (ours and the oracle's), byte vectors of at most 7 bytes; unwinding assertions are on.
+#[kani::proof]
+#[kani::unwind(16)]
+fn k5_spec_global_get() {
+    let mut s = KaniSrc;
+    if let Some((ok, _)) = bodies::k5_initexpr_index_instr_matches_spec_of(0, &mut s) {
+        assert!(ok);
+    }
+}
+#[kani::proof]
+#[kani::unwind(16)]
+fn k5_spec_ref_func() {
+    let mut s = KaniSrc;
+    if let Some((ok, _)) = bodies::k5_initexpr_index_instr_matches_spec_of(1, &mut s) {
+        assert!(ok);
+    }
+}
